@@ -426,9 +426,9 @@ def run(ctx):
         par.go("design", design)
         # 2. behaviours
         if thorough:
-            plan = [("mc/DM_gen2t.cfg", None, None), ("mc/DM_shapes_t.cfg", None, None), ("mc/DM_sim.cfg", 12000, 15)]
+            plan = [("mc/DM_gen2t.cfg", None, None), ("mc/DM_shapes_t.cfg", None, None), ("mc/DM_sim.cfg", 1500, 15)]
         else:
-            plan = [("mc/DM_gen2.cfg", None, None), ("mc/DM_shapes.cfg", None, None), ("mc/DM_sim.cfg", 300, 15)]
+            plan = [("mc/DM_gen2.cfg", None, None), ("mc/DM_shapes.cfg", None, None), ("mc/DM_sim.cfg", 40, 15)]
         for cfg, sim, depth in plan:
             par.go(cfg, gen, ctx, cfg, sim, depth, workers=(W if sim else 2))
         # 3. random driver + trace validation, concurrently
